@@ -195,4 +195,7 @@ theorem no_drain_counterexample :
     simpa using this
   exact ⟨s5, r5, by decide, by decide, by decide, rfl, by decide, rfl⟩
 
+/-- regenerated from the source on every run: Resize records the new size before it starts the workers again (the model's pool has the new size after a resize) -/
+theorem gen_resize_sets_size_first : Gen.resizeSetsSizeBeforeStart = true := by decide
+
 end Props.C20
